@@ -85,7 +85,7 @@ static LCase case_from_plan(const Plan &p) {
 struct CallArg {
   const LCase *c; bool regular;
   // outputs
-  Mat scores, loadings, E; std::vector<double> varexp, b, xvarexp; Mat xscores; std::vector<size_t> labels; size_t ncent = 0; double nm = 0; Mat pred;
+  Mat scores, loadings, E; std::vector<double> varexp, b, xvarexp; Mat xscores, xweights, yloadings; std::vector<size_t> labels; size_t ncent = 0; double nm = 0; Mat pred;
 };
 
 static void call_fit(void *a_) {
@@ -103,7 +103,7 @@ static void call_fit(void *a_) {
     case T_PLS: {
       matrix *x = to_matrix(X), *y = to_matrix(Y); PLSMODEL *m; NewPLSModel(&m);
       PLS(x, y, (size_t)c.ncomp, c.scaling, c.ys, m, NULL);
-      a.xscores = from_matrix(m->xscores); a.loadings = from_matrix(m->xloadings); a.b = from_dvector(m->b); a.xvarexp = from_dvector(m->xvarexp);
+      a.xscores = from_matrix(m->xscores); a.loadings = from_matrix(m->xloadings); a.xweights = from_matrix(m->xweights); a.yloadings = from_matrix(m->yloadings); a.b = from_dvector(m->b); a.xvarexp = from_dvector(m->xvarexp);
       DelPLSModel(&m); DelMatrix(&x); DelMatrix(&y);
       break;
     }
@@ -243,6 +243,7 @@ struct HLive : Harness {
               for (int i = 0; i < c.n; i++) { tk[i] = deg.scores[i][k]; fin = fin && std::isfinite(deg.scores[i][k]); }
               if (!fin) { char m[200]; snprintf(m, sizeof m, "PCA on %s input: component %zu of %zu defined ones is not finite", deg_name[c.deg], k + 1, rank); o.fail("non-finite-leading-component", m); break; }
               if (fabsl(lnorm(pk) - 1) > 1e-8L) o.fail("identity", "PCA: leading loading is not unit length on degenerate input");
+              for (size_t l = 0; l < k && !o.violation; l++) { LVec pl(c.p); for (int j = 0; j < c.p; j++) pl[j] = deg.loadings[j][l]; if (fabsl(ldot(pk, pl)) > 1e-7L) o.fail("identity", "PCA: leading loadings are not orthogonal on degenerate input"); }
               // tolerance relative to the undeflated matrix: deflation itself carries rounding errors of that size
               for (int i = 0; i < c.n && !o.violation; i++) { LD s = ldot(Ek[i], pk); if (fabsl(s - tk[i]) > 1e-9L * (en0 + 1e-300L)) { o.fail("identity", "PCA: leading score is not the projection of the deflated data on its loading (degenerate input)"); } }
               for (int i = 0; i < c.n; i++) for (int j = 0; j < c.p; j++) Ek[i][j] -= tk[i] * pk[j];
@@ -277,8 +278,41 @@ struct HLive : Harness {
               if (deg.xvarexp[k] != deg.xvarexp[k]) { char m[200]; snprintf(m, sizeof m, "PLS on %s input: x explained variance of latent variable %zu (beyond what is defined) is NaN", deg_name[c.deg], k + 1); o.fail("nan-beyond-rank", m); }
             }
           }
+          // later latent variables: deflate with the library's own (finite) scores, loadings and coefficients in long double; as long
+          // as the deflated blocks still have clear covariance, the next latent variable is mathematically defined and must be finite
+          if (!o.violation && !ynull && !covnull && deg.b.size() == ncomp_eff && deg.yloadings.size() == Yl[0].size()) {
+            LMat Xk = E, Yk = Yl; LD x0 = lfro(E), y0 = lfro(Yl);
+            for (size_t k = 0; k < ncomp_eff && !o.violation; k++) {
+              LD cv = 0; for (int a2 = 0; a2 < c.p; a2++) for (size_t b2 = 0; b2 < Yk[0].size(); b2++) { LD sacc = 0; for (int i = 0; i < c.n; i++) sacc += Xk[i][a2] * Yk[i][b2]; cv += sacc * sacc; }
+              bool defined_k = sqrtl(cv) > 1e-6L * (x0 * y0 + 1e-300L) && lfro(Xk) > 1e-6L * x0;
+              bool fin = std::isfinite(deg.b[k]) && std::isfinite(deg.xvarexp[k]);
+              for (int i = 0; i < c.n; i++) fin = fin && std::isfinite(deg.xscores[i][k]);
+              for (int j = 0; j < c.p; j++) fin = fin && std::isfinite(deg.loadings[j][k]) && std::isfinite(deg.xweights[j][k]);
+              for (size_t j = 0; j < Yk[0].size(); j++) fin = fin && std::isfinite(deg.yloadings[j][k]);
+              if (defined_k && !fin) { char m[240]; snprintf(m, sizeof m, "PLS on %s input: latent variable %zu is defined (the deflated blocks still covary) but is not finite", deg_name[c.deg], k + 1); o.fail("non-finite-leading-component", m); break; }
+              if (!fin) break;  // nothing to deflate with
+              for (int i = 0; i < c.n; i++) { for (int j = 0; j < c.p; j++) Xk[i][j] -= (LD)deg.xscores[i][k] * deg.loadings[j][k]; for (size_t j = 0; j < Yk[0].size(); j++) Yk[i][j] -= (LD)deg.b[k] * deg.xscores[i][k] * deg.yloadings[j][k]; }
+              if (defined_k) o.counters["probe.pls_later_lv_checked"] += k > 0;
+            }
+          }
           o.counters["probe.rank_checked"]++;
         }
+      }
+      if (c.rt == T_CPCA && deg.varexp.size() && deg.scores.size() == (size_t)c.n) {
+        // CPCA: rank of the block-scaled concatenation of the preprocessed blocks
+        LMat Ec(c.n, LVec());
+        for (auto &b : c.blocks) { PreArg pb{&b, c.scaling, {}}; sim_guard(call_preprocess, &pb); double m = sqrt((double)b[0].size()); for (int i = 0; i < c.n; i++) for (double v : pb.E[i]) Ec[i].push_back((LD)v / m); }
+        LD gap = 0; size_t rank = lrank(Ec, 1e-9L, &gap);
+        size_t ncomp_eff = deg.varexp.size();
+        bool clear = (gap > 1e5L) || rank == std::min(Ec.size(), Ec[0].size());
+        if (!clear) o.counters["skipped.rank_ambiguous"]++;
+        else for (size_t k = 0; k < ncomp_eff && !o.violation; k++) {
+          if (k < rank) {
+            bool fin = std::isfinite(deg.varexp[k]); for (int i = 0; i < c.n; i++) fin = fin && std::isfinite(deg.scores[i][k]);
+            if (!fin) { char m[240]; snprintf(m, sizeof m, "CPCA on %s input: component %zu of %zu defined ones (super scores / total explained variance) is not finite", deg_name[c.deg], k + 1, rank); o.fail("non-finite-leading-component", m); }
+          } else if (deg.varexp[k] != deg.varexp[k]) { char m[200]; snprintf(m, sizeof m, "CPCA on %s input: total explained variance of component %zu (beyond rank %zu) is NaN", deg_name[c.deg], k + 1, rank); o.fail("nan-beyond-rank", m); }
+        }
+        o.counters["probe.cpca_rank_checked"]++;
       }
       if (c.rt == T_KMEANS) {
         if (deg.labels.size() != (size_t)c.n) o.fail("shape", "KMeans: label vector has the wrong length");
